@@ -17,8 +17,10 @@ CONSTANTS N,        \* length of the call sequence
           NI,       \* number of Solutions (1 or 2)
           KINDSET   \* "all" | "few"
 KMAX == 2
-AllKinds == { [n |-> n, then |-> th] : n \in 0..KMAX, th \in {"end", "error"} } \cup { [n |-> 0, then |-> "inf"] }
-FewKinds == { [n |-> 2, then |-> "end"], [n |-> 1, then |-> "error"], [n |-> 0, then |-> "inf"] }
+\* ("bare": one answer and the end, like [n |-> 1, then |-> "end"], from a query that calls no procedure and binds nothing - a cut -,
+\*  so that the answer's substitution is the empty one, which the implementation represents by a nil pointer)
+AllKinds == { [n |-> n, then |-> th] : n \in 0..KMAX, th \in {"end", "error"} } \cup { [n |-> 0, then |-> "inf"], [n |-> 1, then |-> "bare"] }
+FewKinds == { [n |-> 2, then |-> "end"], [n |-> 1, then |-> "error"], [n |-> 0, then |-> "inf"], [n |-> 1, then |-> "bare"] }
 Kinds == IF KINDSET = "all" THEN AllKinds ELSE FewKinds
 Its == 1..NI
 
